@@ -453,6 +453,45 @@ def rule_complete(program, ctx):
         ctx.bad(finding_func(P, rid, kc, "collect() no longer awaits storage.delete_event(id) for each id of the collected list", text="def collect(...) :: delete loop"))
 
 
+def rule_gc_statement(program, ctx, prop=P, rid="C17.statement"):
+    ctx.rule(
+        rid,
+        "one pass removes everything that is collectable: QueryGarbageCollector.collect executes its single DELETE once with only %NOW% substituted - no LIMIT / batch "
+        "placeholder (a row limit inside the sub-select counts joined tag rows, not events: the 'short batch = done' loop stops with expired events left), no loop around "
+        "the execute; and DBStorage.pre_save never answers for an ephemeral event by itself (returning None skips the insert *and* the broadcast: the event is neither "
+        "delivered nor - where the collector is off - is that a reason not to deliver it)",
+        floor=2,
+    )
+    qc = program.func("nostr_relay.storage.db:QueryGarbageCollector.collect")
+    reps = [c for c in ast.walk(qc) if isinstance(c, ast.Call) and isinstance(c.func, ast.Attribute) and c.func.attr == "replace" and c.args and isinstance(c.args[0], ast.Constant)]
+    for c in reps:
+        if c.args[0].value == "%NOW%":
+            ctx.ok(rid, c, "%NOW% substituted")
+        else:
+            ctx.bad(finding_at(prop, rid, c, f"the GC statement gets a second substitution `{c.args[0].value}`: the audited statement deletes every collectable event in one pass"))
+    ci = program.cls("nostr_relay.storage.db:QueryGarbageCollector")
+    for st in ci.node.body:
+        if isinstance(st, ast.Assign) and any(isinstance(t, ast.Name) and t.id == "query" for t in st.targets):
+            txt = " ".join(str(k.value) for k in ast.walk(st.value) if isinstance(k, ast.Constant) and isinstance(k.value, str))
+            if re.search(r"\bLIMIT\b|%LIMIT%", txt, re.I):
+                ctx.bad(finding_at(prop, rid, st, "the GC statement carries a LIMIT: rows of the events-tags join are limited, not events - collectable events survive the pass"))
+            else:
+                ctx.ok(rid, st, "GC statement without LIMIT")
+    execs = [c for c in ast.walk(qc) if isinstance(c, ast.Call) and isinstance(c.func, ast.Attribute) and c.func.attr == "execute"]
+    for c in execs:
+        if any(isinstance(a, (ast.While, ast.For, ast.AsyncFor)) for a in ancestors(c) if any(a is y for y in ast.walk(qc))):
+            ctx.bad(finding_at(prop, rid, c, "the GC statement is executed in a loop with its own stop condition: a pass can end with collectable events left"))
+        else:
+            ctx.ok(rid, c, "executed once per pass")
+    ps = program.func("nostr_relay.storage.db:DBStorage.pre_save")
+    for r in [r for r in walk_no_nested(ps) if isinstance(r, ast.Return)]:
+        from ..lib import guard_atoms
+        for e, pol in guard_atoms(r, stop=ps):
+            if any(isinstance(x, ast.Attribute) and x.attr == "is_ephemeral" for x in ast.walk(e)) and (r.value is None or (isinstance(r.value, ast.Constant) and not r.value.value)):
+                ctx.bad(finding_at(prop, rid, r, "pre_save refuses an ephemeral event (returns a falsy verdict under a test of `is_ephemeral`): add_event then skips the insert and the "
+                                   "broadcast - ephemeral events must be delivered to the subscriptions open at that moment, whatever the collector's configuration"))
+
+
 def run(program, ctx):
     from ..lib import rule_awaited
 
@@ -475,6 +514,7 @@ def run(program, ctx):
     c08.rule_deletes(program, ctx, prop=P, rid="C17.deletes")
     # a storage subclass (recipe) must not keep ephemeral / expiring events away from the base class' post_save bookkeeping
     c07.rule_overrides(program, ctx, prop=P, rid="C17.overrides")
+    rule_gc_statement(program, ctx)
     # the collector finds expiring events through their tag rows: process_tags failures must abort the insert, not be swallowed
     c07.rule_sqlregion(program, ctx, prop=P, rid="C17.txn")
     ctx.note("informational: the LMDB GC's end key to_key(29999) is a strict prefix of every kind-29999 key, so `key > end` stops before them; moot today because "
